@@ -441,6 +441,13 @@ func c01SSESpellingCase(spelling string) (obs, sig, msg string) {
 // down, a proxy recycles the connection): the answer arrived in full before the end of the stream, so the
 // ping completes with it; the two tool calls are not made.
 func c01SSECase(spelling string, lastWords bool) (obs, sig, msg string) {
+	return c01SSECaseX(spelling, lastWords, false)
+}
+
+// postHangs: the server accepts the POST of a tools/call and never answers it (no response headers), then
+// ends the event stream: the session terminates (Wait returns) and the call, which has no deadline, must end
+// with it - also while it is still inside the transport's write.
+func c01SSECaseX(spelling string, lastWords, postHangs bool) (obs, sig, msg string) {
 	fail := func(s, format string, a ...any) (string, string, string) {
 		return "", "c01 sse-spelling " + s, fmt.Sprintf(format, a...) + " [message events spelled: " + spelling + "]"
 	}
@@ -498,6 +505,10 @@ func c01SSECase(spelling string, lastWords bool) (obs, sig, msg string) {
 			answer = `{"jsonrpc":"2.0","id":` + string(m.ID) + `,"result":{}}`
 		case "tools/call":
 			answer = `{"jsonrpc":"2.0","id":` + string(m.ID) + `,"result":{"content":[{"type":"text","text":"echo ` + m.Params.Arguments.Tag + `"}]}}`
+			if postHangs {
+				<-req.Context().Done()
+				return nil, req.Context().Err()
+			}
 		}
 		if answer != "" {
 			go func() {
@@ -533,6 +544,28 @@ func c01SSECase(spelling string, lastWords bool) (obs, sig, msg string) {
 		return fail("call-never-completes", "Connect: the initialize call is still blocked a minute after the server answered it on the event stream")
 	case connErr != nil:
 		return fail("call-failed", "Connect: %v", connErr)
+	}
+	if postHangs {
+		callDone, waited := false, false
+		var callErr error
+		go func() {
+			_, callErr = cs.CallTool(context.Background(), &CallToolParams{Name: "echo", Arguments: map[string]any{"tag": "t"}})
+			callDone = true
+		}()
+		go func() { cs.Wait(); waited = true }()
+		synctest.Wait()
+		pw.Close() // the server goes away
+		time.Sleep(time.Minute)
+		synctest.Wait()
+		switch {
+		case !waited:
+			return fail("session-does-not-terminate", "the event stream ended a minute ago and Wait has not returned")
+		case !callDone:
+			return fail("call-blocked-after-termination", "the session has terminated (Wait returned) but the call whose POST the server never answered is still blocked")
+		case callErr == nil:
+			return fail("wrong-result", "the unanswered call returned without an error")
+		}
+		return "call ended with the session", "", ""
 	}
 	results := make([]string, 3)
 	done := make([]bool, 3)
@@ -728,6 +761,23 @@ func TestVerifC01AfterClose(t *testing.T) {
 			continue
 		}
 		sp.Record(idx, obs, 4, func() string { return spelling })
+	}
+	ph := env.NewCases(res, "api/sse-client-post-never-answered")
+	if idx, mine := ph.Next(); mine {
+		var obs, sig, msg string
+		func() {
+			defer func() {
+				if r := recover(); r != nil && sig == "" {
+					sig, msg = "c01 sse-spelling panic-or-leak", fmt.Sprintf("%v [post never answered]", r)
+				}
+			}()
+			synctest.Test(t, func(t *testing.T) { obs, sig, msg = c01SSECaseX("named", false, true) })
+		}()
+		if sig != "" {
+			ph.Violate(idx, sig, msg, 2)
+		} else {
+			ph.Record(idx, obs, 2, func() string { return "HTTP+SSE client, POST of a call never answered, then the stream ends" })
+		}
 	}
 	coal := env.NewCases(res, "api/io-transport-coalesced-stream")
 	for _, dir := range []string{"response", "request"} {
